@@ -533,16 +533,22 @@ fn run_worker_path(ctx: &mut Ctx) {
             }
             queued &= pool.dispatch(f.clone()) == huginn_net_tls::DispatchResult::Queued;
         }
+        // wait (up to 10 s, a loaded machine may be slow) for as many results as the sequential analyzer
+        // reported, then a little longer for any surplus
         let mut got: Vec<String> = vec![];
-        let deadline = Instant::now() + Duration::from_millis(400);
-        while Instant::now() < deadline {
+        let deadline = Instant::now() + Duration::from_secs(10);
+        while got.len() < seq_out.len() && Instant::now() < deadline {
             match rx.recv_timeout(Duration::from_millis(50)) {
                 Ok(o) => got.push(crate::canon::tls_sig(&o.sig)),
-                Err(mpsc::RecvTimeoutError::Timeout) => {
-                    if !got.is_empty() {
-                        break;
-                    }
-                }
+                Err(mpsc::RecvTimeoutError::Timeout) => {}
+                Err(_) => break,
+            }
+        }
+        let settle = Instant::now() + Duration::from_millis(if seq_out.is_empty() { 250 } else { 120 });
+        while Instant::now() < settle {
+            match rx.recv_timeout(Duration::from_millis(40)) {
+                Ok(o) => got.push(crate::canon::tls_sig(&o.sig)),
+                Err(mpsc::RecvTimeoutError::Timeout) => {}
                 Err(_) => break,
             }
         }
